@@ -65,20 +65,6 @@ Fixpoint node_unmodelled (n : node FN) : bool :=
   | _ => false end.
 Definition has_unmodelled (ns : list (node FN)) : bool := existsb node_unmodelled ns.
 
-(* what the reader rejects beyond tokenisation: "--" inside a comment (check_comments), end tags that do
-   not match (check_end_names), unclosed elements *)
-Definition comment_ok (c : string) : bool :=
-  (negb (contains_sub "--" c) && negb (ends_with "-" c))%bool.
-Fixpoint nesting_ok (ts : list tok) (stack : list string) : bool :=
-  match ts with
-  | [] => match stack with [] => true | _ => false end
-  | TStart n _ :: r => nesting_ok r (n :: stack)
-  | TRawStart raw :: r => nesting_ok r (take_while (fun c => negb (is_xml_ws c)) raw :: stack)
-  | TEnd n :: r => match stack with m :: st => (String.eqb n m && nesting_ok r st)%bool | [] => false end
-  | TComment c :: r => (comment_ok c && nesting_ok r stack)%bool
-  | _ :: r => nesting_ok r stack
-  end.
-
 (* bytes in, bytes out *)
 Definition transform_doc (cfg : pcfg) (seed border : Z) (scale : f32) (input : string) : res string :=
   match read_xml input with
